@@ -50,6 +50,7 @@ import (
 	"tkestack.io/galaxy/pkg/api/k8s/schedulerapi"
 	"tkestack.io/galaxy/pkg/galaxy"
 	ipamcontext "tkestack.io/galaxy/pkg/ipam/context"
+	"tkestack.io/galaxy/pkg/ipam/floatingip"
 	"tkestack.io/galaxy/pkg/ipam/schedulerplugin"
 	plugintesting "tkestack.io/galaxy/pkg/ipam/schedulerplugin/testing"
 	pluginutil "tkestack.io/galaxy/pkg/ipam/schedulerplugin/util"
@@ -489,6 +490,10 @@ type podSpec struct {
 	Name string `json:"name"`
 	// request_ip_range: one list of ranges per requested IP; empty = plain single-IP request
 	Req [][][2]uint32 `json:"req,omitempty"`
+	// Pre: indices of the requested ranges for which the pod ALREADY holds an ip when it is bound (an earlier
+	// incarnation with policy immutable / never, a range added to the annotation later, an ip released through the
+	// API): that range's first address is allocated under the pod's key before Bind.  A non-empty proper subset.
+	Pre []int `json:"pre,omitempty"`
 }
 
 type pipeCase struct {
@@ -623,6 +628,19 @@ func genPipe(rng *rand.Rand, boundary bool) *pipeCase {
 			}
 			pod.Req = append(pod.Req, rs)
 		}
+		// partially pre-owned multi-range pods: every non-empty proper subset of the ranges is drawn with the same
+		// probability; "a later range but not an earlier one" is forced in a third of the cases
+		if k >= 2 && rng.Intn(5) < 3 {
+			mask := 1 + rng.Intn((1<<uint(k))-2)
+			if rng.Intn(3) == 0 {
+				mask = 1 << uint(1+rng.Intn(k-1)) // exactly one later range
+			}
+			for j := 0; j < k; j++ {
+				if mask&(1<<uint(j)) != 0 {
+					pod.Pre = append(pod.Pre, j)
+				}
+			}
+		}
 		pc.Pods = append(pc.Pods, pod)
 	}
 	// plain requests must come after ranged ones, otherwise they could take a named address
@@ -730,6 +748,49 @@ func (v *env) runPipe(line string) {
 	for pi, pod := range pods {
 		ps := pc.Pods[pi]
 		podLine := fmt.Sprintf("%s #pod=%d", line, pi)
+		// the ips the pod already holds when it is bound
+		preOK := true
+		if len(ps.Pre) > 0 {
+			kobj, _ := pluginutil.FormatKey(pod)
+			isPre := map[int]bool{}
+			for _, j := range ps.Pre {
+				isPre[j] = true
+				if j < 0 || j >= len(ps.Req) || len(ps.Req[j]) == 0 {
+					preOK = false
+					continue
+				}
+				var aerr error
+				o := hx.Guard(30*time.Second, func() {
+					aerr = plugin.GetIpam().AllocateSpecificIP(kobj.KeyInDB, ax.U32ToIP(ps.Req[j][0][0]),
+						floatingip.Attr{Policy: constant.ReleasePolicyImmutable, NodeName: nodeName, Uid: string(pod.UID)})
+				})
+				if o != "ok" || aerr != nil {
+					preOK = false
+				}
+			}
+			held := "earlier-only"
+			for _, j := range ps.Pre {
+				for q := 0; q < j; q++ {
+					if !isPre[q] {
+						held = "later-but-not-earlier"
+					}
+				}
+			}
+			v.r.Hit("pipe:pre-owned:" + held)
+			shapes := map[int]bool{}
+			for j := range ps.Req {
+				if p := pc.poolOf(ps.Req[j][0][0]); p != nil {
+					shapes[p.Plen*100000+p.Vlan] = true
+				}
+			}
+			if len(shapes) > 1 {
+				v.r.Hit("pipe:pre-owned:ranges-in-pools-of-different-mask-or-vlan")
+			}
+		}
+		if !preOK {
+			v.r.Hit("pipe:pre-allocation-failed")
+			continue
+		}
 		var bindErr error
 		out := hx.Guard(60*time.Second, func() {
 			bindErr = plugin.Bind(&schedulerapi.ExtenderBindingArgs{PodName: pod.Name, PodNamespace: pod.Namespace, PodUID: pod.UID, Node: nodeName})
